@@ -58,6 +58,7 @@ def run(ctx):
     chk.not_decided = ['byte-level content of the message', 'expansion of the syslog ident template (C05)',
                        'delivery by the kernel after the hand-over']
     prog = ctx.program(facts.AS_CONFIGURED, 'lib')
+    PROG[0] = prog
     cg = ctx.callgraph(facts.AS_CONFIGURED, 'lib')
     summ = Summaries(cg)
     drop = common.macro_value(ctx.repo, 'SNOOPY_FILTER_DROP')
@@ -114,10 +115,15 @@ def r1_action(ctx, prog, cg, summ, drop, rule='R1', silence_only=False):
         bad = []
         for b, e in drop_edges:
             visited, _ = common.reach_from_edge(A, b, e)
-            for v in visited:
-                n = A.nodes[v]
-                if summ.elem_may(A, n, emit_names):
-                    bad.append(n)
+            hits = [A.nodes[v] for v in visited if summ.elem_may(A, A.nodes[v], emit_names)]
+            if hits:
+                # reachable in the flow graph; feasible too?  (a "do log" flag cleared on DROP and tested before the
+                # logging block keeps the emission out of reach: follow constants along the paths through this edge)
+                paths = common.explore_paths(A, (A.entry, 0), {}, lambda x: summ.elem_may(A, x, emit_names),
+                                             after_edge=(b.id, e))
+                if paths is not None:
+                    hits = [ev[0] for ev in paths if ev]
+            bad += hits
         chk.ob(R1, 'drop-is-silent', bool(drop_edges) and not bad, bad[0].where() if bad else fc.where(), A.name,
                'after the chain said DROP the action still reaches %s' % (render(bad[0]) if bad else ''),
                how='no element reachable from the DROP edge may-calls an emission API, the dispatcher or the error handler')
@@ -173,6 +179,12 @@ def r1_action(ctx, prog, cg, summ, drop, rule='R1', silence_only=False):
         def ef(b, si):
             return (b.id, si) not in {(bb.id, e) for bb, e in drop_edges}
         mn = min_count_filtered(A, lambda e: summ.elem_must(A, e, {DISPATCH}), ef)
+        if mn != 1:
+            # the cheapest path of the flow graph may be infeasible (flag-guarded logging block): count along the
+            # feasible paths that avoid the DROP edges
+            paths = common.explore_paths(A, (A.entry, 0), {}, lambda x: summ.elem_must(A, x, {DISPATCH}), edge_ok=ef)
+            if paths:
+                mn = min(len(ev) for ev in paths)
     chk.ob(R1, 'dispatch-exactly-once', mn == 1 and mx == 1, A.where(), A.name,
            'a logged call dispatches between %s and %s times' % (mn, mx),
            how='min (non-drop paths) / max (all paths) count of %s = 1/1' % DISPATCH)
@@ -447,11 +459,81 @@ def r5_flush(ctx, o, emit, stream_name):
            how='every path from the emission to the return passes fflush(%s)' % stream_name)
 
 
+PROG = [None]
+
+
+def file_framing_split(ctx, o, g, c):
+    """file_framing when the one write() sits in a file-local helper g of the output o: the same three facts
+    (length = strlen(message)+1, buffer = copy of the message of that length, newline behind it), evaluated
+    through the helpers' parameters, results and out-parameters"""
+    from rules.xeval import XEval, MSGLEN
+    chk = ctx.chk
+    X = XEval(PROG[0], o)
+    L = Lin.sym(MSGLEN)
+    ln = X.lin(g, arg(c, 2))
+    ok = ln is not None and ln == L + Lin.const(1)
+    detail = 'write length is %s, expected strlen(message) + 1' % ln
+    how = ''
+    if ok:
+        # the helper runs once per call of the output, the write once per run of the helper
+        chain_ok = True
+        f = g
+        while f is not o:
+            ss = X.sites(f)
+            if len(ss) != 1:
+                chain_ok = False
+                break
+            caller, call = ss[0]
+            mn, mx = C.count_on_paths(caller, lambda e: e.id == call.id)
+            if mx != 1:
+                chain_ok = False
+                break
+            f = caller
+        mn, mx = C.count_on_paths(g, lambda e: e.id == c.id)
+        if not chain_ok or mx != 1:
+            ok, detail = False, 'the write can execute more than once for one record'
+    if ok:
+        org = X.buffer_origin(g, arg(c, 1))
+        if org is None:
+            ok, detail = False, 'the written buffer %s cannot be traced to one allocation' % render(arg(c, 1))
+        else:
+            bf, bid = org
+            copied = nl = False
+            other = []
+            for n in bf.body.walk():
+                if n.k == 'CallExpr' and n.get('callee') in ('memcpy', 'strncpy', 'memmove', 'strcpy', '__builtin_memcpy'):
+                    d = decl_of(arg(n, 0))
+                    if d is not None and d['id'] == bid:
+                        cnt = X.lin(bf, arg(n, 2)) if n.get('callee') != 'strcpy' else L
+                        if X.is_msg(bf, arg(n, 1)) and cnt == L:
+                            copied = True
+                        else:
+                            other.append(n)
+                if n.k == 'BinaryOperator' and n['op'] == '=':
+                    t = strip(n.ch[0])
+                    if t.k == 'ArraySubscriptExpr' and (decl_of(t.ch[0]) or {}).get('id') == bid:
+                        if X.lin(bf, t.ch[1]) == L and strip(n.ch[1]).get('v') == 10:
+                            nl = True
+                        else:
+                            other.append(n)
+            ok = copied and nl and not other
+            detail = 'record buffer (%s in %s) is not message (copied with length strlen(message)) followed by a newline at ' \
+                     'index strlen(message)%s' % (bid, bf.name, '; other stores: ' + '; '.join(render(x) for x in other) if other else '')
+            how = 'buffer built in %s = memcpy(message, strlen) + newline at [strlen]; one write of strlen+1 bytes in %s' % (bf.name, g.name)
+    chk.ob('R4', 'framing[%s]' % o.name, ok, c.where(), o.name, detail, how=how)
+
+
 def file_framing(ctx, o, msg):
     """record = message bytes + '\\n', either by a printf-family call or by an
     assembled buffer written with one write()."""
     chk = ctx.chk
     emits = [c for c in o.calls() if c.get('callee') in STDIO_EMIT or c.get('callee') in ('write', 'dprintf')]
+    if not emits and PROG[0] is not None:
+        # the record may be assembled and written by file-local helpers of the output
+        hs = [(g, c) for g in common.with_helpers(PROG[0], o)[1:] for c in g.calls()
+              if c.get('callee') in STDIO_EMIT or c.get('callee') in ('write', 'dprintf')]
+        if len(hs) == 1 and hs[0][1].get('callee') == 'write':
+            return file_framing_split(ctx, o, hs[0][0], hs[0][1])
     if len(emits) != 1:
         chk.ob('R4', 'framing[%s]' % o.name, False, o.where(), o.name,
                '%d emission calls in the file output, expected one' % len(emits))
